@@ -149,6 +149,7 @@ fn main() {
     // ------------------------------------------------------------ Newton equations
     let mut nsolves = 0usize;
     let mut nevents = 0usize;
+    let mut ninit = 0usize;
     for p in newton_probs.iter() {
         let settings = DefaultSettings { verbose: false, ..DefaultSettings::default() };
         let built = guarded(|| DefaultSolver::new(&p.P, &p.q, &p.A, &p.b, &p.cones, settings));
@@ -166,6 +167,25 @@ fn main() {
                     sink.case("sigma", json!({"label": p.label, "problem": p.to_json(), "alpha": alpha, "sigma": sigma, "m": m}),
                         format!("(c_sigma {} {})", cfl(*alpha), cfl(*sigma)), &["C06"]);
                 }
+            }
+        }
+        // the starting point of symmetric-cone problems (Newton/Init.v): primal rows and dual equality
+        for e in events.iter() {
+            if let Event::InitPoint { x, s, z, lp, ok } = e {
+                if !*ok || !(finite(x) && finite(s) && finite(z)) || s.len() != m { continue; }
+                // diagonal of the identity scaling over the solver's internal cone list
+                let mut h: Vec<f64> = vec![];
+                for c in d.cones.iter() {
+                    let dim = cone_dim(c);
+                    let v = if matches!(c, ZeroConeT(_)) { 0.0 } else { 1.0 };
+                    h.extend(std::iter::repeat(v).take(dim));
+                }
+                if h.len() != m { continue; }
+                ninit += 1;
+                sink.case("init", json!({"label": p.label, "problem": p.to_json(), "n": n, "m": m, "lp_branch": lp}),
+                    format!("(c_init 10 {} {} {} {} {} {} {} {} {} {})", cn(n), cn(m), trips(&d.P), trips(&d.A), cdylist(&d.q), cdylist(&d.b), cdylist(&h),
+                            cdylist(x), cdylist(s), cdylist(z)),
+                    &["C06"]);
             }
         }
         let ks: Vec<&Event> = events.iter().filter(|e| matches!(e, Event::KktSolve { .. })).collect();
@@ -235,7 +255,7 @@ fn main() {
                                   "problem": if status != 1 { p.to_json() } else { Value::Null }}}));
     }
 
-    sink.record(json!({"stats": {"newton_solves": nsolves, "newton_directions": nevents, "family_G_instances": g_probs.len()}}));
+    sink.record(json!({"stats": {"newton_solves": nsolves, "newton_directions": nevents, "init_points": ninit, "family_G_instances": g_probs.len()}}));
     sink.record(json!({"meta": {"prop": "c06", "seed": seed, "tier": tier, "blas": blas_shim::AVAILABLE}}));
     sink.flush();
 }
